@@ -115,9 +115,13 @@ func TestErrorsForMissingSubjects(t *testing.T) {
 		t.Error("CheckHelpers on a missing file must return an error")
 	}
 	needRepo(t)
-	// a file that exists but does not define the function
-	if _, err := CheckReduceSaturated(filepath.Join(repoRoot, relGLV), modN); err == nil {
-		t.Error("CheckReduceSaturated must fail when the function is declared elsewhere")
+	// a package that does not define the function (the file name only names the package: the routine may live in any
+	// file of it)
+	if _, err := CheckReduceSaturated(filepath.Join(repoRoot, relHelpers), modN); err == nil {
+		t.Error("CheckReduceSaturated must fail when the package does not declare the function")
+	}
+	if _, err := CheckReduceSaturated(filepath.Join(repoRoot, relGLV), modN); err != nil {
+		t.Errorf("CheckReduceSaturated must find the function in another file of the same package: %v", err)
 	}
 	if _, err := CheckIsGreaterThanHalfN(filepath.Join(repoRoot, relHelpers), modN); err == nil {
 		t.Error("CheckIsGreaterThanHalfN must fail when the method is absent")
